@@ -7,15 +7,21 @@
    FULL STATEMENT: the invariant (current is kept, no revision kept twice, mounted = kept, linked revision = current
    exactly when active, a removed snap leaves nothing) holds after every sequence of install / refresh / revert / enable /
    disable / remove operations with and without injected failures, on several snaps.
-   PROVED (partial): the invariant `wf` implies the C11 statement (C11_invariant_content); it holds of the empty state;
-   it is preserved by every refused operation, by every completed install, revert and disable, and by every failed and
-   undone install / refresh / revert whose failure comes before the first completed discard-snap, outside the recorded
-   classes of C10.  MISSING in Coq (monitored on the implementation only): completed refresh (link-snap followed by the
-   discards), completed enable and remove, failures after a completed discard, failures inside remove / enable /
-   disable, and the frame condition for other snaps (the driver plays one snap). *)
+   PROVED: the invariant `wf` implies the C11 statement (C11_invariant_content); it holds of the empty state; EVERY
+   completed or refused operation preserves it — install, refresh to a new and to a kept revision (link + garbage
+   collection), revert, enable, disable, remove, remove --revision, snap set, refresh inhibition, retain changes
+   (C11_completed_ops_preserve) — and so does every failed and undone install / revert, and every failed and undone refresh
+   at ANY failure position (also after discards), outside the config-from-nothing class of C10; by induction over
+   histories of such steps every reachable state is consistent (C11_consistent_invariant_partial).
+   MISSING in Coq (monitored on the implementation only): failures inside remove / remove --revision / enable / disable,
+   failed operations in the config-from-nothing class (they only differ in the configuration value, which the invariant
+   does not constrain for an installed snap, but this is not proved), and the frame condition for other snaps (the driver
+   plays one snap).  Side conditions of a step (`covered`): retain >= 2 (configuration accepts 2..20) and an enable carries
+   the current revision in its snap-setup (Enable builds it from CurrentSideInfo). *)
 From Coq Require Import List NArith ZArith Bool.
 Import ListNotations.
-Require Import V.models.SnapSeq V.proofs.SnapSeqProofs V.proofs.SnapSeqProofs2.
+Require Import V.models.SnapSeq V.proofs.SnapSeqProofs V.proofs.SnapSeqProofs2 V.proofs.SnapSeqProofs3 V.proofs.SnapSeqProofs4
+               V.proofs.SnapSeqProofs5 V.proofs.SnapSeqProofs6 V.proofs.SnapSeqProofs7.
 Open Scope N_scope.
 
 Theorem C11_invariant_content : forall s : st, wf s ->
@@ -29,21 +35,36 @@ Theorem C11_empty_wf : wf empty.
 Proof. exact wf_empty. Qed.
 Print Assumptions C11_empty_wf.
 
-Theorem C11_consistent_invariant_partial : forall (s : st) (o : op) (retain : Z) (inuse : N -> bool), wf s ->
-  (* refused operations *)
-  (forall k, accepts o s = false -> wf (step o k retain inuse s)) /\
-  (* completed install, revert, disable *)
-  (accepts o s = true -> (okind o = OInstall \/ okind o = ORevert \/ okind o = ODisable) ->
-     wf (run_change o 0 (tasks_for o s retain inuse) s)) /\
-  (* failed and undone install, refresh, revert *)
-  (forall j, accepts o s = true -> (okind o = OInstall \/ okind o = ORefresh \/ okind o = ORevert) ->
-     forallb (fun t => negb (is_discard t)) (firstn j (tasks_for o s retain inuse)) = true ->
-     cfg_guard o s ->
-     wf (run_change o (S j) (tasks_for o s retain inuse) s)).
+(* every operation that completes (k = 0) or is refused preserves the invariant *)
+Theorem C11_completed_ops_preserve : forall (o : op) (retain : Z) (inuse : N -> bool) (s : st),
+  wf s -> (2 <= retain)%Z -> (okind o = OEnable -> orev o = cur s) -> wf (step o 0 retain inuse s).
 Proof.
-  intros s o retain inuse W. split; [|split].
-  - intros k H. rewrite refused_unchanged; auto.
-  - intros A [K|[K|K]]; [apply install_wf|apply revert_wf|apply disable_wf]; auto.
-  - intros j A K ND CG. apply failed_op_wf; auto.
+  intros o retain inuse s W R EN.
+  apply (step_wf (mkH o 0 retain inuse) s W). split; [exact R|split; [exact EN|left; reflexivity]].
 Qed.
+Print Assumptions C11_completed_ops_preserve.
+
+(* a failed and undone refresh leaves a consistent state whatever the failure position *)
+Theorem C11_failed_refresh_preserves : forall (s : st) (o : op) (j : nat) (retain : Z) (inuse : N -> bool),
+  wf s -> okind o = ORefresh -> accepts o s = true -> (2 <= retain)%Z -> cfg_guard o s ->
+  wf (run_change o (S j) (tasks_for o s retain inuse) s).
+Proof. exact failed_refresh_wf. Qed.
+Print Assumptions C11_failed_refresh_preserves.
+
+(* induction over histories: hplay plays a list of steps (operation, failure position, retain, in-use answer);
+   all_covered asks of each step, in the state it is taken from, the side conditions named above *)
+Theorem C11_consistent_invariant_partial : forall (hs : list hstep), all_covered hs empty -> wf (hplay hs empty).
+Proof. intros hs C. apply history_wf; [exact wf_empty|exact C]. Qed.
 Print Assumptions C11_consistent_invariant_partial.
+
+(* non-vacuity: install 1, refresh to 2, refresh to 3 failing after the last task (revision 1 is already garbage-collected),
+   refresh to 3, revert to 2, disable, remove --revision 2 (the current one): kept [3], current 3 *)
+Example C11_history_example :
+  let i := mkOp OInstall 1 false 1 false false false false false 0 false 0 1 in
+  let d := mkOp ODisable 0 false 0 false false false false false 0 false 0 6 in
+  let rr := mkOp ORemoveRev 2 false 0 false false false false false 0 false 0 7 in
+  let hs := [mkH i 0 2 no_inuse; mkH (mk_refresh 2 7 2) 0 2 no_inuse; mkH (mk_refresh 3 0 3) 40 2 no_inuse;
+             mkH (mk_refresh 3 0 4) 0 2 no_inuse; mkH (mk_revert 2 true 5) 0 2 no_inuse; mkH d 0 2 no_inuse;
+             mkH rr 0 2 no_inuse] in
+  seq (hplay hs empty) = [3] /\ cur (hplay hs empty) = 3 /\ active (hplay hs empty) = false /\ mounted (hplay hs empty) = [3].
+Proof. vm_compute. repeat split; reflexivity. Qed.
